@@ -445,7 +445,77 @@ def layer_types() -> typing.List[Case]:
             ],
         )
     )
+    cases += _boundary_cases()
     return cases
+
+
+def _boundary_cases() -> typing.List[Case]:
+    """Counts at the boundary of a tag / length-prefix width, where a generated comparison against a constant can
+    become tautological (-Wtype-limits): unions with exactly 255 / 256 / 257 options (sealed, delimited, as service
+    request and response, nested in a holder as field and arrays), array capacities 255 / 256 / 65535 / 65536 for
+    uint8 and bool elements (variable and fixed), types with exactly one field.  (65535 / 65536 options are not
+    affordable: the C++ variant of such a union cannot be compiled in minutes.)"""
+
+    def union(n: int, tail: str = "@sealed\n") -> str:
+        return "@union\n" + "".join(f"uint8 o{i}\n" for i in range(n)) + tail
+
+    def ufiles(n: int) -> typing.Dict[str, str]:
+        return {f"reg/U{n}.1.0.dsdl": union(n)}
+
+    core = [
+        dict(label="union_options:256:sealed", feature="union_options:256", name="sealed", origin="count_boundary", files=ufiles(256)),
+        dict(
+            label="union_options:256:holder",
+            feature="union_options:256",
+            name="holder",
+            origin="count_boundary",
+            files=dict(ufiles(256), **{"reg/Holder256.1.0.dsdl": "reg.U256.1.0 u\nreg.U256.1.0[2] f\nreg.U256.1.0[<=2] v\n@sealed\n"}),
+        ),
+        dict(label="union_options:256:delimited", feature="union_options:256", name="delimited", origin="count_boundary", files={"reg/U256D.1.0.dsdl": union(256, "@extent 64\n")}),
+        dict(
+            label="union_options:256:service",
+            feature="union_options:256",
+            name="service",
+            origin="count_boundary",
+            files={"reg/U256Svc.1.0.dsdl": union(256) + "---\n" + union(256, "@extent 64\n")},
+        ),
+    ]
+    rest = core[2:]
+    core = core[:2]
+    for n in (255, 257):
+        rest.append(dict(label=f"union_options:{n}:sealed", feature=f"union_options:{n}", name="sealed", origin="count_boundary", files=ufiles(n)))
+        rest.append(
+            dict(
+                label=f"union_options:{n}:holder",
+                feature=f"union_options:{n}",
+                name="holder",
+                origin="count_boundary",
+                files=dict(ufiles(n), **{f"reg/Holder{n}.1.0.dsdl": f"reg.U{n}.1.0 u\nreg.U{n}.1.0[<=2] v\n@sealed\n"}),
+            )
+        )
+        rest.append(dict(label=f"union_options:{n}:delimited", feature=f"union_options:{n}", name="delimited", origin="count_boundary", files={f"reg/U{n}D.1.0.dsdl": union(n, "@extent 64\n")}))
+        rest.append(
+            dict(
+                label=f"union_options:{n}:service",
+                feature=f"union_options:{n}",
+                name="service",
+                origin="count_boundary",
+                files={f"reg/U{n}Svc.1.0.dsdl": union(n) + "---\n" + union(n)},
+            )
+        )
+    for k, body in enumerate(["uint8 a\n", "bool a\n", "float32 a\n", "uint8[<=1] a\n", "bool[1] a\n", "@union\nuint8 a\nbool b\n"]):
+        rest.append(dict(label=f"field_count:minimal:{k}", feature="field_count:minimal", name=body.replace("\n", ";"), origin="count_boundary", files={f"reg/One{k}.1.0.dsdl": body + "@sealed\n"}))
+    rel = "reg/Caps.1.0.dsdl"
+    caps = []
+    for n in (255, 256, 65535, 65536):
+        for t in ("uint8", "bool"):
+            caps.append(dict(label=f"array_capacity:{t}[<={n}]", feature=f"array_capacity:var:{n}", name=t, origin="count_boundary", lines={rel: [f"{t}[<={n}] v{t}{n}"]}))
+            caps.append(dict(label=f"array_capacity:{t}[{n}]", feature=f"array_capacity:fixed:{n}", name=t, origin="count_boundary", lines={rel: [f"{t}[{n}] f{t}{n}"]}))
+    return [
+        dict(id="T.boundary.core", layer="T", roots=["reg"], fixed={}, skeletons={}, members=core),
+        dict(id="T.boundary.arrays", layer="T", roots=["reg"], fixed={}, skeletons={rel: ["", "@extent 8 * 1024 * 1024\n"]}, members=caps),
+        dict(id="T.boundary.rest", layer="T", roots=["reg"], fixed={}, skeletons={}, members=rest, quick_core=False),
+    ]
 
 
 def _float_consts() -> typing.List[typing.Tuple[str, str, str]]:
@@ -914,7 +984,40 @@ def layer8() -> typing.List[Case]:
         )
     )
     cases += _version_pair_cases()
+    cases.append(_guard_fold_case())
     return cases
+
+
+def _guard_fold_case() -> Case:
+    """Two types whose full names differ but coincide after case folding / snake-casing (CamelCase type vs nested
+    namespace + type, acronyms, underscore vs case boundary), used side by side by a third type: whatever a target
+    derives from the full name by a lossy conversion (include guards) must not make the user's header unusable.
+    The C / C++ / Python type identifiers of each pair are distinct (only the case or a separator differs)."""
+    pairs = [
+        ("camel_vs_namespace", "FooBar", "foo/Bar"),
+        ("acronym_vs_namespace", "HTTPServer", "http/Server"),
+        ("lower_camel_vs_namespace", "fooBar", "foo/Bar"),
+        ("underscore_vs_namespace", "Foo_Bar", "foo/Bar"),
+        ("camel_vs_underscore", "FooBar", "Foo_Bar"),
+        # (names differing only by letter case are rejected by PyDSDL: DataTypeNameCollisionError)
+    ]
+    members = []
+    for k, (tag, a, b) in enumerate(pairs):
+        ns = f"reg/g{k}"
+        fa, fb = (f"reg.g{k}." + x.replace("/", ".") + ".1.0" for x in (a, b))
+        members.append(
+            dict(
+                label=f"guard_fold:{tag}",
+                origin="name_fold",
+                files={
+                    f"{ns}/{a}.1.0.dsdl": "uint8 a\n@sealed\n",
+                    f"{ns}/{b}.1.0.dsdl": "uint16 b\n@sealed\n",
+                    f"{ns}/User.1.0.dsdl": f"{fa} a\n{fb} b\n@sealed\n",
+                    **({f"{ns}/UserRev.1.0.dsdl": f"{fb} b\n{fa}[<=2] a\n@sealed\n"} if k == 0 else {}),
+                },
+            )
+        )
+    return dict(id="L8.guard_fold", layer="L8", roots=["reg"], fixed={}, skeletons={}, members=members)
 
 
 def _version_pair_cases() -> typing.List[Case]:
